@@ -22,6 +22,9 @@ type item struct {
 type FileQueue struct {
 	Home   string
 	Offset int64
+	// serialises the appends to the tmp file (and Offset). Put is called by the chain thread and, for the asset indexes,
+	// by the background writer itself
+	putLock sync.Mutex
 
 	IndexRW sync.RWMutex
 	Index   map[string]*item
@@ -279,6 +282,9 @@ func (queue *FileQueue) Put(flag uint32, key []byte, val []byte) error {
 		return err
 	}
 
+	queue.putLock.Lock()
+	defer queue.putLock.Unlock()
+
 	path := queue.path()
 
 	// TODO del tmp file.
@@ -299,6 +305,9 @@ func (queue *FileQueue) PutBatch(items []*BatchItem) error {
 	if err != nil {
 		return err
 	}
+
+	queue.putLock.Lock()
+	defer queue.putLock.Unlock()
 
 	path := queue.path()
 	totalBuf := queue.mergeBatchItems(tmpBuf)
